@@ -58,9 +58,9 @@ func verifC15Endpoints(followup bool) {
 	kind := ""
 	ep := verifapi.Choose("endpoint", 10)
 	if followup {
-		// sequences: a registration request (the only ones that leave a connection-dependent
-		// trace in the pool), then peer requests by every node
-		verifapi.Assume(ep == 0 || ep == 4)
+		// sequences: a request that leaves a trace in the pool (a registration, or a wallet linking a
+		// node id of its choice), then peer requests by every node and the read-only endpoints
+		verifapi.Assume(ep == 0 || ep == 4 || ep == 7)
 	}
 	if ep == 0 || ep == 4 {
 		ctx = connCtx()
@@ -118,6 +118,12 @@ func verifC15Endpoints(followup bool) {
 			req := pool.PeerRequest{Num: 2}
 			w.p.Peer(context.Background(), sigs.SignFor(string(id), "vipnode_peer", n, req), string(id), n, req)
 		}
+		// ... and the unauthenticated read endpoints, for every wallet the first request may have touched
+		for _, a := range []string{wal, "nobody"} {
+			w.pay.Account(context.Background(), a)
+		}
+		st := &status.PoolStatus{Store: w.db, Version: "v"}
+		st.Status(context.Background())
 		verifapi.Quiesce()
 	}
 }
